@@ -20,7 +20,7 @@ SCALES = (0.5, 0.1, 2.5, 10)
 def gen_tasks(tier, seed):
     rng = random.Random(seed + 4)
     tasks = []
-    for name, es in I.digraphs(tier, rng, quick_n=10, thorough_n=80):
+    for name, es in I.digraphs(tier, rng, quick_n=10, thorough_n=200):
         for rep in range(1 if tier == "quick" else 2):
             wf = I.walk_flow(es, rng, weights=(1, 2, 3), max_walks=3)
             if wf is None:
